@@ -79,7 +79,7 @@ def _pre_replace(t, log, w):
         tail = re.match(r'\s*\.collect_vec\(\)', t[pc + 1:])
         if tail:
             # the closure keeps its text; its parameter type is written out and it gets a contract (R1) that Verus checks against its body
-            clo = re.sub(r'^\|(\w+)\|\s*', r'|\1: &String| -> (vx_r: Grapheme) ensures plain(vx_r) && vx_r.chars@[0]@ == \1@ ', t[po + 1:pc].strip())
+            clo = re.sub(r'^\|(\w+)\|\s*', r'|\1: &String| -> (vx_r: Grapheme) ensures /*#replace.nested_units_are_rebuilt_from_plain_graphemes#*/ plain(vx_r) && vx_r.chars@[0]@ == \1@ ', t[po + 1:pc].strip())
             log.add('R35', w, '%s.iter().map(closure).collect_vec()' % recv, 'vx_map_strings(&%s, closure): the closure applied to every element, in order (parameter type written out)' % recv)
             t = t[:m.start()] + 'vx_map_strings(&%s, %s)' % (recv, clo) + t[pc + 1 + tail.end():]
             # R29: the first argument of the recursive call gets a name (ghost code refers to it)
@@ -128,7 +128,8 @@ def build(repo, spec_dir, canary=False):
                          3: ['vx_v1@.len() == vx_r2.len()', 'it3.iter.end == vx_v1@.len()', 'graphemes@.len() < 0x1_0000_0000', 'graphemes@.len() >= 2',
                              ('replace.nested_units_keep_their_symbols@loop3', P, 'forall|j: int| 0 <= j < vx_v1@.len() ==> deep(#[trigger] vx_v1@[j]) == deep(vx_r2[j])'),
                              ('replace.every_unit_respects_the_minimum_length_at_every_depth@loop3', ['C13'], '(forall|j: int| 0 <= j < vx_k1 ==> deep_ok(#[trigger] vx_v1@[j], *config)) && (forall|j: int| vx_k1 <= j < vx_v1@.len() ==> printed_once(#[trigger] vx_v1@[j]) || unit_ok(vx_v1@[j], *config))'),
-                             ('replace.units_are_short_and_not_nested@loop3', P + ['C07'], 'forall|j: int| vx_k1 <= j < vx_v1@.len() ==> small(#[trigger] vx_v1@[j], graphemes@.len())')]},
+                             ('replace.units_are_short_and_not_nested@loop3', P + ['C07'], 'forall|j: int| vx_k1 <= j < vx_v1@.len() ==> small(#[trigger] vx_v1@[j], graphemes@.len())')],
+                         99: [('replace.nested_units_are_rebuilt_from_plain_graphemes', P, 'true')]},
                   blocks=[(1, 'loop_after', '''    proof { assert(repetitions@ =~= graphemes@);
         assert(spells(coalesced_repetitions@[0], graphemes@));
         assert forall|k: int| 0 <= k < repetitions@.len() implies small(#[trigger] repetitions@[k], graphemes@.len()) by { assert(plain(graphemes@[k])); }
